@@ -195,6 +195,18 @@ static int op_p_run(void) {
         out_int(ret); if (ret) out_ge(&q); else out_str("-"); return 1;
     }
 #endif
+    if (!strncmp(f, "Papi.", 5)) {        /* public API functions translated in mode P: same calls and output as the ops of ops_basic.h */
+        int rc = -1; const char *g = f + 5;
+        g_args++; g_argc--;
+        if (!strcmp(g, "ecdsa_verify")) rc = op_ecdsa_verify();
+        else if (!strcmp(g, "ecdsa_signature_normalize")) rc = op_sig_normalize();
+        else if (!strcmp(g, "ec_pubkey_create")) rc = op_pubkey_create();
+        else if (!strcmp(g, "ec_seckey_verify")) rc = op_seckey_verify();
+        else if (!strcmp(g, "xonly_pubkey_tweak_add")) rc = op_xonly_tweak_add();
+        else { out_str("skip"); rc = 1; }
+        g_args--; g_argc++;
+        return rc;
+    }
     if (!strncmp(f, "Pkeys.", 6)) {       /* the public key-tweak functions: same calls and output as the ops of ops_basic.h */
         int rc = -1; const char *g = f + 6;
         g_args++; g_argc--;
